@@ -223,6 +223,18 @@ fn run(ctx: &mut Ctx) {
             } else if j > 0 && rng.chance(0.2) {
                 let t = ts[rng.usize(ts.len())];
                 ts.push(t); // duplicate track
+            } else if j > 0 && rng.chance(0.35) {
+                // another piece of the trajectory of a track already in the list: bit-identical helix, other t range
+                // (a stub below the length cut, or a second long piece), listed before or after it
+                let src = ts[rng.usize(ts.len())];
+                let hp = vh::helix_params(&src);
+                let rad = hp[3].abs().max(1e-3);
+                let t0 = src.t_outer() + rng.range(0.0, 0.3) * if rng.bool() { 1.0 } else { -1.0 };
+                let len = if rng.bool() { rng.range(0.0, 0.034) } else { rng.range(0.04, 0.2) };
+                let piece = vh::track_from_helix(hp, t0, t0 + len / rad * if rng.bool() { 1.0 } else { -1.0 });
+                let at = if rng.bool() { 0 } else { rng.usize(ts.len() + 1) };
+                ts.insert(at, piece);
+                ctx.count("track lists with two pieces of one trajectory");
             } else {
                 let zz = if rng.bool() { z } else { rng.range(-1.0, 1.0) };
                 let pitch = rng.range(-1.5, 1.5);
